@@ -458,6 +458,10 @@ theorem azimuthal_in_range (phi : ℝ) (na : ℕ) (hna : 1 ≤ na) (h0 : 0 ≤ p
     push_cast
     nlinarith
 
+/-- `AnnularDetector._calculate_new_array` hands its own `offset` to `integrate_radial` (generated keyword argument; fix
+4901abf9 — before it the detector silently dropped the offset), so a shifted annular detector is the shifted annular mask. -/
+theorem annular_detector_passes_offset (o : Rat × Rat) : annularDetectOffset o = o := rfl
+
 /-! ### the flexible detector -/
 
 /-- **Flexible bins have the width the axis metadata states.**  With the binned range of `angular_limits`
